@@ -41,6 +41,14 @@ class _Continue(Exception):
     pass
 
 
+class PyRaise(Exception):
+    """A Python exception the interpreted fragment itself would raise (modelled, e.g. IndexError)."""
+
+    def __init__(self, name: str):
+        super().__init__(name)
+        self.name = name
+
+
 class ReturnValue(Exception):
     def __init__(self, v):
         self.v = v
@@ -104,8 +112,15 @@ class Evaluator:
                 i = slice(lo, hi, stp)
             else:
                 i = self.ev(e.slice)
+            if isinstance(v, Record):
+                gi = v.fields.get("__getitem__")
+                if gi is None:
+                    raise Unsupported(f"subscript of {v!r}")
+                return gi(i)
             try:
                 return v[i]
+            except (IndexError, KeyError) as ex:
+                raise PyRaise(type(ex).__name__)
             except Exception as ex:
                 raise Unsupported(f"subscript failed: {ex}")
         if isinstance(e, ast.UnaryOp):
@@ -151,7 +166,17 @@ class Evaluator:
                 return ops[type(e.op)](l, r)
             raise Unsupported(f"binary {type(e.op).__name__}")
         if isinstance(e, ast.JoinedStr):
-            return "<fstring>"
+            parts = []
+            for v in e.values:
+                if isinstance(v, ast.Constant):
+                    parts.append(str(v.value))
+                else:
+                    try:
+                        x = self.ev(v.value)
+                    except Unsupported:
+                        x = "<?>"
+                    parts.append(x.fields.get("__str__", repr(x)) if isinstance(x, Record) else str(x))
+            return "".join(parts)
         if isinstance(e, (ast.GeneratorExp, ast.ListComp)) and len(e.generators) == 1 and isinstance(e.generators[0].target, ast.Name):
             g = e.generators[0]
             seq = self.ev(g.iter)
@@ -210,6 +235,24 @@ class Evaluator:
                     return self.truth(args[0])
                 if fn.id == "len" and len(args) == 1 and isinstance(args[0], (tuple, list, str)):
                     return len(args[0])
+            if isinstance(fn, ast.Attribute):
+                try:
+                    recv = self.ev(fn.value)
+                except Unsupported:
+                    recv = None
+                if isinstance(recv, Record) and ("()" + fn.attr) in recv.fields:
+                    args = [self.ev(a) for a in e.args]
+                    kw = {k.arg: self.ev(k.value) for k in e.keywords if k.arg}
+                    return recv.fields["()" + fn.attr](*args, **kw)
+            if isinstance(fn, ast.Name) and fn.id == "hasattr" and len(e.args) == 2:
+                o = self.ev(e.args[0])
+                a = self.ev(e.args[1])
+                if isinstance(o, Record):
+                    return a in o.fields or ("()" + str(a)) in o.fields
+            if isinstance(fn, ast.Name) and fn.id == "len" and len(e.args) == 1:
+                o = self.ev(e.args[0])
+                if isinstance(o, Record) and "__len__" in o.fields:
+                    return o.fields["__len__"]
             if self.call_hook is not None:
                 name = ast.unparse(fn)
                 args = [self.ev(a) for a in e.args]
@@ -309,6 +352,37 @@ class Evaluator:
                         continue
                 if not broke:
                     self._block(st.orelse)
+            elif isinstance(st, ast.Try):
+                try:
+                    self._block(st.body)
+                except PyRaise as pe:
+                    handled = False
+                    for h in st.handlers:
+                        names = []
+                        if h.type is None:
+                            names = None
+                        elif isinstance(h.type, ast.Tuple):
+                            names = [ast.unparse(x).split(".")[-1] for x in h.type.elts]
+                        else:
+                            names = [ast.unparse(h.type).split(".")[-1]]
+                        if names is None or pe.name in names or "Exception" in names or "BaseException" in names or (pe.name in ("IndexError", "KeyError") and "LookupError" in names):
+                            handled = True
+                            try:
+                                self._block(h.body)
+                            finally:
+                                pass
+                            break
+                    if not handled:
+                        self._block(st.finalbody)
+                        raise
+                else:
+                    self._block(st.orelse)
+                self._block(st.finalbody)
+            elif isinstance(st, ast.Raise):
+                name = "Exception"
+                if st.exc is not None:
+                    name = ast.unparse(st.exc.func if isinstance(st.exc, ast.Call) else st.exc).split(".")[-1]
+                raise PyRaise(name)
             elif isinstance(st, ast.Break):
                 raise _Break()
             elif isinstance(st, ast.Continue):
